@@ -45,6 +45,12 @@ def isinstance_classes(fi: FuncInfo, _depth: int = 0, _seen: set | None = None) 
                     out.add(e.id)
         elif isinstance(n, ast.Call) and isinstance(n.func, ast.Name) and n.func.id == "hasattr" and len(n.args) == 2 and isinstance(n.args[1], ast.Constant) and n.args[1].value == "children":
             out.update({"Block", "Section"})
+        elif isinstance(n, ast.Compare) and len(n.ops) == 1 and isinstance(n.ops[0], (ast.Is, ast.Eq)) and isinstance(n.left, ast.Call) and isinstance(n.left.func, ast.Name) and n.left.func.id == "type" and len(n.left.args) == 1 and isinstance(n.comparators[0], ast.Name):
+            # `type(v) is C` (what a type-keyed dispatch table does): a branch for C itself - the value classes are leaf
+            # dataclasses and the parser's nested-META dicts are plain dicts
+            out.add(n.comparators[0].id)
+        elif isinstance(n, ast.Compare) and len(n.ops) == 1 and isinstance(n.ops[0], ast.In) and isinstance(n.left, ast.Call) and isinstance(n.left.func, ast.Name) and n.left.func.id == "type" and isinstance(n.comparators[0], (ast.Tuple, ast.List, ast.Set)):
+            out.update(e.id for e in n.comparators[0].elts if isinstance(e, ast.Name))
     return out
 
 
@@ -171,7 +177,7 @@ def check_plain_emit_and_elementwise(run: Run) -> None:
     ej = run.project.mod("mcp.eject")
     for q in ("_convert_value", "_format_markdown_value"):
         f2 = ej.func(q)
-        branches = [b for b in walk_no_nested(f2.node) if isinstance(b, ast.If) and "isinstance" in ast.unparse(b.test) and "ListValue" in ast.unparse(b.test)]
+        branches = [b for b in walk_no_nested(f2.node) if isinstance(b, ast.If) and ("isinstance" in ast.unparse(b.test) or "type(" in ast.unparse(b.test)) and "ListValue" in ast.unparse(b.test)]
         if not branches:
             raise AnalysisError(f"{q}: ListValue branch not found")
         for b in branches:
